@@ -146,7 +146,6 @@ CALL_MODES = ("once", "second", "second_pending", "first_late")
 PENDING_FINDINGS = {
     "find:spelling-twins": "find (ḟ) compares with the language's equality ⁼: a number is found at the position of the string that spells it "
                            "(find([0, 0], '0') = 0, not -1) while count / contains on the same list say it is absent",
-    "group:spelling-twins": "group_consecutive (Ġ) compares neighbours with ⁼ and repeats the first item of a run: [0, '0'] gives [[0, 0]]",
 }
 
 
@@ -1215,8 +1214,18 @@ class Oracle:
                 groups[-1].append(x)
             else:
                 groups.append([x])
-        if _allowed("group:spelling-twins") or not any(confusable(a, b) for a, b in zip(l, l[1:])):
+        if not any(confusable(a, b) for a, b in zip(l, l[1:])):
             ex("group", "runs of equal neighbours", r["group"], groups)
+        else:
+            # Ġ compares with the language's own equality ⁼, under which a number equals the string that spells it: the runs are
+            # those of that equality, but a group must hold the ITEMS of the run (the groups concatenate back to the list)
+            runs = []
+            for x in l:
+                if runs and (same_item(runs[-1][0], x) or confusable(runs[-1][0], x)):
+                    runs[-1].append(x)
+                else:
+                    runs.append([x])
+            ex("group", "runs of neighbours equal under ⁼, holding the items themselves", r["group"], runs)
         ex("reverse", "[::-1]", r["reverse"], l[::-1])
         ex("length", "len()", r["length"], n)
         ex("uninterleave", "[l[::2], l[1::2]]", r["uninterleave"], [l[::2], l[1::2]])
